@@ -59,6 +59,7 @@ type Sim struct {
 	all     []*G
 	tape    []byte
 	tpos    int
+	rng     uint64 // xorshift state used once the tape is exhausted (0: always choose the lowest id)
 	wake    chan struct{}
 	kill    chan struct{}
 	killed  atomic.Bool
@@ -86,8 +87,8 @@ func Active() *Sim { return cur.Load() }
 
 // New creates a simulation with the given schedule tape and makes it current.
 // Must be called inside the synctest bubble.
-func New(tape []byte) *Sim {
-	s := &Sim{gs: map[int64]*G{}, tape: tape, wake: make(chan struct{}, 1), kill: make(chan struct{}),
+func New(tape []byte, seed uint64) *Sim {
+	s := &Sim{gs: map[int64]*G{}, tape: tape, rng: seed, wake: make(chan struct{}, 1), kill: make(chan struct{}),
 		stopped: make(chan struct{}), MaxSpin: 200000, lastAdvance: time.Now()}
 	h := fnv.New64a()
 	s.trace = h.Sum64()
@@ -123,7 +124,13 @@ func (s *Sim) next() byte {
 		s.tpos++
 		return b
 	}
-	return 0
+	if s.rng == 0 {
+		return 0
+	}
+	s.rng ^= s.rng << 13
+	s.rng ^= s.rng >> 7
+	s.rng ^= s.rng << 17
+	return byte(s.rng >> 24)
 }
 
 func (s *Sim) signal() {
@@ -170,7 +177,7 @@ func (s *Sim) loop() {
 		}
 		sort.Slice(cands, func(i, j int) bool { return cands[i].ID < cands[j].ID })
 		x := s.next()
-		if x >= 224 {
+		if x >= 248 {
 			// let timers overtake the runnable goroutines
 			y := s.next()
 			d := time.Duration(1000) << (y % 20)
